@@ -418,7 +418,7 @@ def int_saturating(ctx, args, st):
     return ret(st, Int(z3.simplify(z3.If(z3.ULT(a.e + b.e, a.e), mx, a.e + b.e)), a.ty))
 
 
-@model(r'^core::num::<impl (i64|i32|isize)>::abs$')
+@model(r'^core::num::<impl (i64|i32|isize|i8|i16)>::abs$')
 def int_abs(ctx, args, st):
     a = args[0]
     mn = z3.BitVecVal(-(1 << (a.bits - 1)), a.bits)
@@ -807,3 +807,12 @@ def bool_not(ctx, args, st):
     while isinstance(v, Ref): v = st.deref(v)
     if not isinstance(v, Bool): raise Unsupported(f'Not::not on {v!r}')
     return ret(st, Bool(z3.simplify(z3.Not(v.e))))
+
+
+@model(r'^<\{closure@.*\} as Fn(?:Mut|Once)?<.*>>::call(?:_mut|_once)?$')
+def closure_call(ctx, args, st):
+    """direct call of a closure through its Fn* impl: (closure or reference to it, argument tuple)"""
+    f = args[0]
+    tup = args[1] if len(args) > 1 else UNIT
+    items = list(tup.items) if isinstance(tup, Tup) else []
+    return ctx.ex.call_value(f, items, st, ctx.depth + 1)
